@@ -170,6 +170,114 @@ def check_inplace_history(ctx: Ctx, P):
                        "q_grad_default": q1, "q_grad_explicit": q2})
 
 
+def _gsig(ts):
+    return [None if t.grad is None else (tuple(t.grad.shape), [float(v) for v in t.grad.reshape(-1).tolist()]) for t in ts]
+
+
+def check_empty_leaf(ctx: Ctx):
+    """a leaf with ZERO elements (shape (0,), (0,3), (2,0)) that requires grad is a leaf the tensors were computed from
+    like any other: the defaulted call must treat it as the explicit one does (it receives an empty .grad; reached both
+    through and around the features it makes the default sets overlap)"""
+    from torchjd.aggregation import Constant
+    rng = ctx.rng
+    zshape = rng.choice([(0,), (0, 3), (2, 0)])
+    k = rng.choice([2, 3])
+    xv = [float(rng.randint(-3, 4)) for _ in range(k)]
+    pv = [float(rng.randint(1, 4))]
+    w = [float(rng.randint(-3, 5)) for _ in range(2)]
+    api = rng.choice(["backward", "mtl-shared", "mtl-task", "mtl-overlap"])
+
+    def build():
+        x = torch.tensor(xv, dtype=torch.float64, requires_grad=True)
+        z = torch.zeros(zshape, dtype=torch.float64, requires_grad=True)
+        p = torch.tensor(pv, dtype=torch.float64, requires_grad=True)
+        return x, z, p
+
+    def run(explicit):
+        x, z, p = build()
+        A = Constant(torch.tensor(w, dtype=torch.float64))
+        err = None
+        try:
+            if api == "backward":
+                y = torch.stack([(x * x).sum() + z.sum(), x.sum() * 3 + (z * 2).sum()])
+                backward([y], A, **({"inputs": [x, z]} if explicit else {}))
+            else:
+                f = x * 2 + (z.sum() if api in ("mtl-shared", "mtl-overlap") else 0.0)
+                l1 = (f * p).sum() + (z.sum() * 5 if api in ("mtl-task", "mtl-overlap") else 0.0)
+                l2 = f.sum()
+                if explicit:
+                    tp = [[p] + ([z] if api in ("mtl-task", "mtl-overlap") else []), []]
+                    sp = [x] + ([z] if api in ("mtl-shared", "mtl-overlap") else [])
+                    mtl_backward([l1, l2], [f], A, tasks_params=tp, shared_params=sp)
+                else:
+                    mtl_backward([l1, l2], [f], A)
+        except Exception as e:  # noqa: BLE001
+            err = classify_exc(e)
+        return err, _gsig([x, z, p])
+
+    e1, g1 = run(False)
+    e2, g2 = run(True)
+    ctx.case(("empty-leaf", api, zshape, tuple(xv), tuple(w)), nontrivial=True)
+    ctx.count("empty_leaf", api)
+    rp = {"api": api, "family": "zero-element leaf", "zero_element_leaf_shape": list(zshape), "x": xv, "p": pv, "weights": w,
+          "default": [e1, str(g1)], "explicit": [e2, str(g2)]}
+    if api == "mtl-overlap" and e1 is None:
+        ctx.violation(f"a zero-element leaf of shape {zshape} is reached both through and around the features, but the "
+                      f"defaulted mtl_backward call was accepted (the default parameter sets overlap)", rp)
+        return
+    if e1 != e2 or (e1 is None and g1 != g2):
+        ctx.violation(f"{api}: with a zero-element leaf of shape {zshape} the defaulted call leaves (x, z, p).grad = {g1} "
+                      f"(err={e1}); the explicit call with the leaves the tensors were computed from leaves {g2} (err={e2})", rp)
+
+
+def check_mixed_history(ctx: Ctx, M):
+    """two DEFAULTED calls on one retained graph, one through backward (nothing excluded) and one through mtl_backward
+    (features excluded), in either order; the twin graph gets the same two calls with explicit parameter lists"""
+    rng, P = ctx.rng, M.P
+    T = len(M.losses)
+    agg1 = ("const", [rng.randint(-5, 7) for _ in range(T)])
+    agg2 = ("const", [rng.randint(-5, 7) for _ in range(T)])
+    pre = rand_pre(rng, P, P.leaves())
+    report = P.leaves()
+    ts = P.build(torch.float64)
+    ids, leaf_of, gsx = extract_graph(ts)
+    _, shared = lean_sets(ctx, ids, leaf_of, gsx, ts, M.features, [])
+    tasks = [lean_sets(ctx, ids, leaf_of, gsx, ts, [l], M.features)[1] for l in M.losses]
+    _, all_leaves = lean_sets(ctx, ids, leaf_of, gsx, ts, list(dict.fromkeys(M.losses)), [])
+    if set(shared) & {p for tp in tasks for p in tp} or len(set(M.losses)) < T:
+        return
+    order = rng.choice(["backward-then-mtl", "mtl-then-backward"])
+
+    def run(tsx, explicit):
+        set_pre(P, tsx, pre, torch.float64)
+        errs = []
+        for step in (order.split("-then-")):
+            try:
+                if step == "backward":
+                    backward([tsx[i] for i in M.losses], make_agg(agg1, torch.float64), retain_graph=True,
+                             **({"inputs": [tsx[i] for i in all_leaves]} if explicit else {}))
+                else:
+                    mtl_backward([tsx[i] for i in M.losses], [tsx[i] for i in M.features], make_agg(agg2, torch.float64),
+                                 retain_graph=True,
+                                 **({"tasks_params": [[tsx[i] for i in t] for t in tasks],
+                                     "shared_params": [tsx[i] for i in shared]} if explicit else {}))
+                errs.append(None)
+            except Exception as e:  # noqa: BLE001
+                errs.append(classify_exc(e))
+        return errs, grads_of(tsx, report)
+
+    e1, g1 = run(ts, False)
+    e2, g2 = run(P.build(torch.float64), True)
+    ctx.case(("mixed", tuple(P.describe()), order), nontrivial=True)
+    ctx.count("mixed_history", order)
+    if e1 != e2 or g1 != g2:
+        ctx.violation(f"history {order} on one retained graph with defaulted parameters leaves {fmt_grads(g1)} (errors {e1}); "
+                      f"with the explicit lists (all leaves {all_leaves}; shared {shared}, tasks {tasks}) it leaves "
+                      f"{fmt_grads(g2)} (errors {e2})",
+                      {"api": "history", "order": order, "program": P.describe(), "prog_sx": sx(P.to_sx()), "features": M.features,
+                       "losses": M.losses, "default": fmt_grads(g1), "explicit": fmt_grads(g2)})
+
+
 def check_mtl(ctx: Ctx, M):
     rng, P = ctx.rng, M.P
     if rng.random() < 0.15:
@@ -235,6 +343,9 @@ def main(ctx: Ctx):
         check_mtl(ctx, random_mtl(ctx.rng, heads_disjoint=(i % 2 == 0)))
         if i % 3 == 0:
             check_inplace_history(ctx, random_program(ctx.rng, p_norg=0.25))
+            check_mixed_history(ctx, random_mtl(ctx.rng, heads_disjoint=True))
+        if i % 4 == 0:
+            check_empty_leaf(ctx)
         if i % 5 == 0:
             check_mtl(ctx, sibling_mtl(ctx.rng))
     return ctx.finish(
@@ -243,5 +354,6 @@ def main(ctx: Ctx):
              "is extracted (nodes, next_functions with output numbers) and handed to the Lean BFS / tensor-level "
              "reachability; defaulted call vs explicit call with the predicted sets on a twin graph: .grad of all "
              "leaves equal / both rejected; histories with an in-place edit of the differentiated tensor by a fresh leaf "
-             "between two defaulted calls; _get_leaf_tensors vs Lean BFS model as diagnostic tie",
+             "between two defaulted calls; backward and mtl_backward defaulted on one retained graph in either order; leaves "
+             "with zero elements; _get_leaf_tensors vs Lean BFS model as diagnostic tie",
         trusted=TRUSTED)
